@@ -121,6 +121,7 @@ type PlanFlags struct {
 	HashDep      bool `json:"hash_dep,omitempty"`      // key hashes vary per process (memhash): no decision may depend on them
 	CostMonotone bool `json:"cost_monotone,omitempty"` // every key always carries the same cost, MaxCost only raised
 	NoLowerMax   bool `json:"no_lower_max,omitempty"`
+	Race         bool `json:"race,omitempty"` // race-detector flavour (C08): minimal harness, no white box
 }
 
 // Clock advance kinds.
@@ -182,6 +183,7 @@ type profile struct {
 	focusKeys  int // if >0, keys drawn mostly from the first focusKeys keys
 	starveAppl int // per mille runs using the applier-starvation strategy
 	maxSteps   int
+	race       bool
 }
 
 // Capacity modes.
@@ -209,6 +211,11 @@ func init() {
 		mix:     mix{get: 35, set: 28, setTTL: 8, del: 10, getTTL: 2, iter: 2, wait: 4, clear: 2, upmax: 1, yield: 3},
 		capMode: []int{CapTiny, CapFew, CapFew, CapHalf, CapAll}, bufSmall: 600, collide: 1000, strKeys: 500,
 		pClockLo: 0, pClockHi: 60, ttlNeg: 20, shouldUpd: 100, costFn: 200, metricsPM: 300, epilogue: "std", quiescePM: 0, starveAppl: 200})
+	// C08: every listed call concurrently, under the race detector
+	add(&profile{name: "race", clientsLo: 2, clientsHi: 8, opsLo: 3, opsHi: 25, keysLo: 1, keysHi: 8,
+		mix:     mix{get: 25, set: 22, setTTL: 10, del: 8, getTTL: 5, iter: 5, wait: 6, clear: 5, upmax: 4, reads: 8, yield: 2},
+		capMode: []int{CapTiny, CapFew, CapFew, CapHalf, CapAll}, bufSmall: 600, collide: 0, strKeys: 200,
+		pClockLo: 0, pClockHi: 60, ttlNeg: 30, shouldUpd: 150, costFn: 200, metricsPM: 600, epilogue: "race", quiescePM: 0, starveAppl: 200, race: true})
 	// C02: overwrite / delete heavy on very few keys
 	add(&profile{name: "overwrite", clientsLo: 2, clientsHi: 5, opsLo: 5, opsHi: 25, keysLo: 1, keysHi: 3,
 		mix:     mix{get: 35, set: 35, setTTL: 8, del: 12, wait: 3, clear: 2, yield: 5, iter: 2},
@@ -379,6 +386,13 @@ func GenPlan(profName string, seed uint64) *Plan {
 	p.Flags.NoLowerMax = true
 
 	nclients := g.rng(pr.clientsLo, pr.clientsHi)
+	if pr.race {
+		p.Flags.Race = true
+		if g.p(80) {
+			nclients = g.rng(16, 64) // a slice of runs with many short tasks
+		}
+		c.Callbacks = g.p(700)
+	}
 	p.Flags.SingleClient = nclients == 1 && !pr.closer
 	m := pr.mix
 	weights := []int{m.get, m.set, m.setTTL, m.del, m.getTTL, m.iter, m.wait, m.clear, m.upmax, m.reads, m.yield, m.setRoom}
@@ -426,6 +440,9 @@ func GenPlan(profName string, seed uint64) *Plan {
 	}
 	for ci := 0; ci < nclients; ci++ {
 		nops := g.rng(pr.opsLo, pr.opsHi)
+		if nclients > 8 {
+			nops = g.rng(1, 4)
+		}
 		var prog []Op
 		for len(prog) < nops {
 			x := g.n(total)
@@ -532,6 +549,9 @@ func GenPlan(profName string, seed uint64) *Plan {
 		s.ClockKinds = []int{ClkTiny, ClkExpiry}
 	}
 	s.MaxSteps = 20000
+	if nclients > 8 {
+		s.MaxSteps = 60000
+	}
 	if pr.maxSteps > 0 {
 		s.MaxSteps = pr.maxSteps
 	}
@@ -546,6 +566,8 @@ func GenPlan(profName string, seed uint64) *Plan {
 
 	// epilogue
 	switch pr.epilogue {
+	case "race":
+		p.Epilogue = []Op{{K: OpWait}, {K: OpClose}}
 	case "ttl":
 		p.Epilogue = []Op{{K: OpWait}, {K: OpQuiesce}}
 		// advance in growing steps to well beyond the last expiration; a write+Wait per step
